@@ -153,6 +153,7 @@ class Interp:
         self.lock_scopes = []
         self.dropped_calls = 0
         self.native_calls = {}
+        self.local_overrides = {}
 
     # ------------------------------------------------------------------ helpers
     def site(self, node):
@@ -410,6 +411,9 @@ class Interp:
             env.assign(a.asname or a.name, getattr(mod, a.name))
 
     def st_FunctionDef(self, s, env):
+        if s.name in self.local_overrides:
+            env.assign(s.name, self.local_overrides[s.name])       # contract replaces a nested helper
+            return
         env.assign(s.name, Closure(s, env, self, self.qualname + '.' + s.name))
 
     def st_With(self, s, env):
